@@ -1,5 +1,6 @@
 import Proofs.C02
 import Proofs.C03
+import Proofs.GroupAlignLemmas
 
 /-!
 # C05 — alignment result is independent of the reference plane; groups move rigidly
@@ -96,5 +97,676 @@ theorem fits_same_result_in_any_plane (P Q : Aff K) (hP : P.m.det ≠ 0) (hQ : Q
   have k2 := (c.setCorrectionRef_toSky hc P hP f.m f.t hf hx hy hhx hhy).1
   simp only [FCorr.detToWorld]
   rw [FCorr.pix2world_eq, FCorr.pix2world_eq, k1, k2, ref_plane_independent P Q hP hQ f]
+
+/-! ## `align_to_ref` at group level, with indices
+
+The composition `TW.GA.groupAlignToRef` (`Model/GroupAlign.lean`) of the separately modelled pieces, in the order of
+the code: the members of the group (each with its own corrector state and its own catalog, some empty), the group
+catalog stacked from them (`TW.GC`), `calc_tanp_xy` in the reference plane, the matcher's index arrays through
+`match2ref`, the selection of the pairs (`fit2refSel`), `iter_linear_fit` and the re-centring (`fitPairs`),
+`apply_affine_to_wcs` = `set_correction` with ONE `(matrix, shift, ref_tpwcs)` on EVERY member, and
+`recalc_catalog_radec` with the corrected members.  `fitsOps P δ`: all members FITS (flat sky, reference plane an
+affine chart `P`, distortion `δ p` of member `p`); `gwcsOps env refW2T refT2W s0`: all members gWCS.
+
+Common hypotheses: the group catalog `run st0 hist` was built from the members' catalogs (`hc`, with ANY initial
+sky columns `w0`) and then went through ANY history `hist` of bookkeeping operations, and its `RA`, `DEC` columns
+are current (`GAL.Current`: true at construction `GAL.current_fresh`, after `recalc_catalog_radec`
+`GAL.current_recalc`, and after a successful alignment — last part of `GAL.Applied`).  "The alignment succeeded"
+is `….fit = some (r, f)`: `r` is what `iter_linear_fit` returned, `f` the `(matrix, shift)` written to every
+member's `fit_info`.  The conclusions are `GAL.Applied` / `GAL.MovedBy` (spelled out in
+`Proofs/GroupAlignLemmas.lean`).  Helper lemmas: `Proofs/GroupAlignLemmas.lean`; correspondence with the real
+`WCSGroupCatalog.align_to_ref`: `harness/props/c05_groupalign.py`. -/
+section groupAlign
+open TW.GC TW.GCL TW.GA TW.GAL
+
+/-- **reported = applied at group level (FITS, flat sky)**, no exactness hypothesis (noisy data, any fit geometry,
+any `match`): the `(matrix, shift)` written to `fit_info` is the re-centred result of `iter_linear_fit` on the
+selected pairs, and it is what EVERY member's corrected WCS does in the plane of the fit — members without
+sources and members that contributed no pair included; every row of the recomputed catalog carries the corrected
+position of ITS member's source.  Hypotheses: well-formed member WCS, non-zero differentiation steps, invertible
+chart `P`, invertible fitted matrix. -/
+theorem group_align_reported_is_applied (P : Aff K) (hP : P.m.det ≠ 0) (δ : Nat → V2 K → V2 K) (cfg : FitCfg K)
+    (ms : List (GMember (FState K) K))
+    (hgood : ∀ (p : Nat) (gm : GMember (FState K) K), ms[p]? = some gm →
+      gm.corr.f.WF ∧ gm.corr.hx ≠ 0 ∧ gm.corr.hy ≠ 0)
+    (w0 : Nat → K × K → K × K) (st0 : GState K) (hc : createGroup w0 (ms.map (·.cat)) = .ok st0)
+    (hist : List (GC.GOp K)) (hcur : Current (fitsOps P δ) ms (run st0 hist))
+    (ref : RefCat K) (m : Option (List Int × List Int)) (minobj : Option Nat) (fitmin : Nat)
+    (r : IterRes K) (f : Aff K)
+    (hfit : (groupAlignToRef (fitsOps P δ) cfg ms (run st0 hist) ref m minobj fitmin).fit = some (r, f))
+    (hdet : f.m.det ≠ 0) :
+    (∃ pa, (groupAlignToRef (fitsOps P δ) cfg ms (run st0 hist) ref m minobj fitmin).res = .ok (true, some pa) ∧
+      iterLinearFitWith cfg.single cfg.normalised cfg.metric cfg.fitMinobj (List.zipWith mkObs pa.xy pa.uv)
+        pa.wxy pa.wuv none cfg.nclip cfg.sigma cfg.accum = .ok r) ∧
+    f = reportedOf r (TW.recentre r.lin r.center) ∧
+    Applied (fitsOps P δ) ms (run st0 hist)
+      (groupAlignToRef (fitsOps P δ) cfg ms (run st0 hist) ref m minobj fitmin) f := by
+  obtain ⟨_, _, _, pa, _, _, _, hfp, hf, _, hR, _⟩ := fit_inv _ cfg ms (run st0 hist) ref m minobj fitmin r f hfit
+  exact ⟨⟨pa, hR, (fitPairs_ok cfg pa r _ hfp).1⟩, hf,
+    group_core w0 _ fitsGood (fits_applies P hP δ) cfg ms hgood st0 hc hist hcur ref m minobj fitmin r f hfit hdet⟩
+
+/-- **reported = applied at group level (gWCS)**: each member has its own pipeline pieces `env p` (bijective), its
+own well-formed state, its own plane-to-plane map `q` from the reference plane (flat-sky hypothesis: it is an
+invertible affine map), its own non-zero sampling scale -/
+theorem group_align_reported_is_applied_gwcs (env : Nat → GEnv K) (refW2T refT2W : V2 K → V2 K)
+    (hr1 : ∀ w, refT2W (refW2T w) = w) (s0 : Nat → K) (cfg : FitCfg K) (ms : List (GMember (GCorr K) K))
+    (hgood : ∀ (p : Nat) (gm : GMember (GCorr K) K), ms[p]? = some gm →
+      (env p).Bij ∧ gm.corr.WF ∧ s0 p ≠ 0 ∧
+        ∃ q : Aff K, q.m.det ≠ 0 ∧ ∀ x, gm.corr.worldToTanp (env p) (refT2W x) = q.app x)
+    (w0 : Nat → K × K → K × K) (st0 : GState K) (hc : createGroup w0 (ms.map (·.cat)) = .ok st0)
+    (hist : List (GC.GOp K)) (hcur : Current (gwcsOps env refW2T refT2W s0) ms (run st0 hist))
+    (ref : RefCat K) (m : Option (List Int × List Int)) (minobj : Option Nat) (fitmin : Nat)
+    (r : IterRes K) (f : Aff K)
+    (hfit : (groupAlignToRef (gwcsOps env refW2T refT2W s0) cfg ms (run st0 hist) ref m minobj fitmin).fit
+      = some (r, f))
+    (hdet : f.m.det ≠ 0) :
+    (∃ pa, (groupAlignToRef (gwcsOps env refW2T refT2W s0) cfg ms (run st0 hist) ref m minobj fitmin).res
+        = .ok (true, some pa) ∧
+      iterLinearFitWith cfg.single cfg.normalised cfg.metric cfg.fitMinobj (List.zipWith mkObs pa.xy pa.uv)
+        pa.wxy pa.wuv none cfg.nclip cfg.sigma cfg.accum = .ok r) ∧
+    f = reportedOf r (TW.recentre r.lin r.center) ∧
+    Applied (gwcsOps env refW2T refT2W s0) ms (run st0 hist)
+      (groupAlignToRef (gwcsOps env refW2T refT2W s0) cfg ms (run st0 hist) ref m minobj fitmin) f := by
+  obtain ⟨_, _, _, pa, _, _, _, hfp, hf, _, hR, _⟩ := fit_inv _ cfg ms (run st0 hist) ref m minobj fitmin r f hfit
+  exact ⟨⟨pa, hR, (fitPairs_ok cfg pa r _ hfp).1⟩, hf,
+    group_core w0 _ (gwcsGood env refT2W s0) (gwcs_applies env refW2T refT2W hr1 s0) cfg ms hgood st0 hc hist hcur
+      ref m minobj fitmin r f hfit hdet⟩
+
+/-- **exactness at group level (FITS, flat sky; `iter_linear_fit` as the code runs it, over `ℝ`, all four fit
+geometries).**  If for every matched pair `k` the reference position, in the plane of the fit, is `T` of the
+position of group row `minput[k]` (`hT`; indices as numpy reads them: `inp`, `rf` are the normalised arrays), `T`
+invertible and in the family of the fit geometry (`FamilyOK`; for `rshift` also: the matched image positions handed
+to the fitter are pairwise different), and the alignment succeeded — whatever `nclip`, `sigma`, `clip_accum`, the
+weights and `minobj` —, then `MovedBy`: the reported fit is `T`; EVERY member (matched or not, with or without
+sources) is moved by the one map `T` in the plane; the recomputed `RA`, `DEC` of row `i` is the corrected
+position of ITS member's source; every matched row lands exactly on its reference position. -/
+theorem group_align_exact (P : Aff ℝ) (hP : P.m.det ≠ 0) (δ : Nat → V2 ℝ → V2 ℝ)
+    (eps epsD : ℝ) (heps : 0 < eps) (g : FitGeom) (nclip : Option Int) (sigma : Option (ℝ × String))
+    (accum : Bool) (ms : List (GMember (FState ℝ) ℝ))
+    (hgood : ∀ (p : Nat) (gm : GMember (FState ℝ) ℝ), ms[p]? = some gm →
+      gm.corr.f.WF ∧ gm.corr.hx ≠ 0 ∧ gm.corr.hy ≠ 0)
+    (w0 : Nat → ℝ × ℝ → ℝ × ℝ) (st0 : GState ℝ) (hc : createGroup w0 (ms.map (·.cat)) = .ok st0)
+    (hist : List (GC.GOp ℝ)) (hcur : Current (fitsOps P δ) ms (run st0 hist))
+    (hne : (run st0 hist).catlen ≠ 0) (ref : RefCat ℝ) (mref minput : List Int)
+    (minobj : Option Nat) (fitmin : Nat) (r : IterRes ℝ) (f : Aff ℝ)
+    (hfit : (groupAlignToRef (fitsOps P δ) (FitCfg.ofGeom eps epsD g nclip sigma accum) ms (run st0 hist) ref
+      (some (mref, minput)) minobj fitmin).fit = some (r, f))
+    (inp rf : List Nat) (hin : normAll (run st0 hist).catlen minput = some inp)
+    (hrf : normAll ref.radec.length mref = some rf)
+    (T : Lin ℝ) (hdetT : T.m00 * T.m11 - T.m01 * T.m10 ≠ 0)
+    (hT : ∀ (k i j : Nat) (row : GRow ℝ) (rd : ℝ × ℝ), inp[k]? = some i → rf[k]? = some j →
+      (run st0 hist).rows[i]? = some row → ref.radec[j]? = some rd →
+      P.app (toV rd) = C01.Lin.app T (P.app (toV row.radec)))
+    (hfam : FamilyOK g T (∀ pa : PairArgs ℝ,
+      (groupAlignToRef (fitsOps P δ) (FitCfg.ofGeom eps epsD g nclip sigma accum) ms (run st0 hist) ref
+        (some (mref, minput)) minobj fitmin).res = .ok (true, some pa) →
+      ((List.zipWith mkObs pa.xy pa.uv).map fun o => (o.u, o.v)).Nodup)) :
+    MovedBy (fitsOps P δ) ms (run st0 hist)
+      (groupAlignToRef (fitsOps P δ) (FitCfg.ofGeom eps epsD g nclip sigma accum) ms (run st0 hist) ref
+        (some (mref, minput)) minobj fitmin) ref inp rf f T :=
+  group_exact_code w0 _ fitsGood (fits_applies P hP δ) eps epsD heps g nclip sigma accum ms hgood st0 hc hist hcur
+    hne ref mref minput minobj fitmin r f hfit inp rf hin hrf T hdetT hT hfam
+
+/-- **exactness at group level (gWCS)**: the same with every member a gWCS corrector with its own pipeline, state
+and plane-to-plane map (hypotheses as `group_align_reported_is_applied_gwcs`) -/
+theorem group_align_exact_gwcs (env : Nat → GEnv ℝ) (refW2T refT2W : V2 ℝ → V2 ℝ)
+    (hr1 : ∀ w, refT2W (refW2T w) = w) (s0 : Nat → ℝ)
+    (eps epsD : ℝ) (heps : 0 < eps) (g : FitGeom) (nclip : Option Int) (sigma : Option (ℝ × String))
+    (accum : Bool) (ms : List (GMember (GCorr ℝ) ℝ))
+    (hgood : ∀ (p : Nat) (gm : GMember (GCorr ℝ) ℝ), ms[p]? = some gm →
+      (env p).Bij ∧ gm.corr.WF ∧ s0 p ≠ 0 ∧
+        ∃ q : Aff ℝ, q.m.det ≠ 0 ∧ ∀ x, gm.corr.worldToTanp (env p) (refT2W x) = q.app x)
+    (w0 : Nat → ℝ × ℝ → ℝ × ℝ) (st0 : GState ℝ) (hc : createGroup w0 (ms.map (·.cat)) = .ok st0)
+    (hist : List (GC.GOp ℝ)) (hcur : Current (gwcsOps env refW2T refT2W s0) ms (run st0 hist))
+    (hne : (run st0 hist).catlen ≠ 0) (ref : RefCat ℝ) (mref minput : List Int)
+    (minobj : Option Nat) (fitmin : Nat) (r : IterRes ℝ) (f : Aff ℝ)
+    (hfit : (groupAlignToRef (gwcsOps env refW2T refT2W s0) (FitCfg.ofGeom eps epsD g nclip sigma accum) ms
+      (run st0 hist) ref (some (mref, minput)) minobj fitmin).fit = some (r, f))
+    (inp rf : List Nat) (hin : normAll (run st0 hist).catlen minput = some inp)
+    (hrf : normAll ref.radec.length mref = some rf)
+    (T : Lin ℝ) (hdetT : T.m00 * T.m11 - T.m01 * T.m10 ≠ 0)
+    (hT : ∀ (k i j : Nat) (row : GRow ℝ) (rd : ℝ × ℝ), inp[k]? = some i → rf[k]? = some j →
+      (run st0 hist).rows[i]? = some row → ref.radec[j]? = some rd →
+      refW2T (toV rd) = C01.Lin.app T (refW2T (toV row.radec)))
+    (hfam : FamilyOK g T (∀ pa : PairArgs ℝ,
+      (groupAlignToRef (gwcsOps env refW2T refT2W s0) (FitCfg.ofGeom eps epsD g nclip sigma accum) ms
+        (run st0 hist) ref (some (mref, minput)) minobj fitmin).res = .ok (true, some pa) →
+      ((List.zipWith mkObs pa.xy pa.uv).map fun o => (o.u, o.v)).Nodup)) :
+    MovedBy (gwcsOps env refW2T refT2W s0) ms (run st0 hist)
+      (groupAlignToRef (gwcsOps env refW2T refT2W s0) (FitCfg.ofGeom eps epsD g nclip sigma accum) ms
+        (run st0 hist) ref (some (mref, minput)) minobj fitmin) ref inp rf f T :=
+  group_exact_code w0 _ (gwcsGood env refT2W s0) (gwcs_applies env refW2T refT2W hr1 s0) eps epsD heps g nclip sigma
+    accum ms hgood st0 hc hist hcur hne ref mref minput minobj fitmin r f hfit inp rf hin hrf T hdetT hT hfam
+
+/-- **exactness with `match=None`** (FITS; this is how `align_wcs` is called with pre-matched catalogs): the group
+catalog and the reference catalog have the same length and are paired row by row; if every reference row is `T` of
+its group row in the plane of the fit, the conclusions of `group_align_exact` hold with `inp = rf = [0, …, n-1]` -/
+theorem group_align_exact_match_none (P : Aff ℝ) (hP : P.m.det ≠ 0) (δ : Nat → V2 ℝ → V2 ℝ)
+    (eps epsD : ℝ) (heps : 0 < eps) (g : FitGeom) (nclip : Option Int) (sigma : Option (ℝ × String))
+    (accum : Bool) (ms : List (GMember (FState ℝ) ℝ))
+    (hgood : ∀ (p : Nat) (gm : GMember (FState ℝ) ℝ), ms[p]? = some gm →
+      gm.corr.f.WF ∧ gm.corr.hx ≠ 0 ∧ gm.corr.hy ≠ 0)
+    (w0 : Nat → ℝ × ℝ → ℝ × ℝ) (st0 : GState ℝ) (hc : createGroup w0 (ms.map (·.cat)) = .ok st0)
+    (hist : List (GC.GOp ℝ)) (hcur : Current (fitsOps P δ) ms (run st0 hist))
+    (hne : (run st0 hist).catlen ≠ 0) (ref : RefCat ℝ)
+    (hl : (run st0 hist).catlen = ref.ids.length) (hl2 : ref.radec.length = ref.ids.length)
+    (minobj : Option Nat) (fitmin : Nat) (r : IterRes ℝ) (f : Aff ℝ)
+    (hfit : (groupAlignToRef (fitsOps P δ) (FitCfg.ofGeom eps epsD g nclip sigma accum) ms (run st0 hist) ref
+      none minobj fitmin).fit = some (r, f))
+    (T : Lin ℝ) (hdetT : T.m00 * T.m11 - T.m01 * T.m10 ≠ 0)
+    (hT : ∀ (i : Nat) (row : GRow ℝ) (rd : ℝ × ℝ), (run st0 hist).rows[i]? = some row → ref.radec[i]? = some rd →
+      P.app (toV rd) = C01.Lin.app T (P.app (toV row.radec)))
+    (hfam : FamilyOK g T (∀ pa : PairArgs ℝ,
+      (groupAlignToRef (fitsOps P δ) (FitCfg.ofGeom eps epsD g nclip sigma accum) ms (run st0 hist) ref
+        none minobj fitmin).res = .ok (true, some pa) →
+      ((List.zipWith mkObs pa.xy pa.uv).map fun o => (o.u, o.v)).Nodup)) :
+    MovedBy (fitsOps P δ) ms (run st0 hist)
+      (groupAlignToRef (fitsOps P δ) (FitCfg.ofGeom eps epsD g nclip sigma accum) ms (run st0 hist) ref
+        none minobj fitmin) ref (List.range (run st0 hist).catlen) (List.range (run st0 hist).catlen) f T :=
+  group_exact_code_none w0 _ fitsGood (fits_applies P hP δ) eps epsD heps g nclip sigma accum ms hgood st0 hc hist
+    hcur hne ref hl hl2 minobj fitmin r f hfit T hdetT hT hfam
+
+/-- … and gWCS members -/
+theorem group_align_exact_match_none_gwcs (env : Nat → GEnv ℝ) (refW2T refT2W : V2 ℝ → V2 ℝ)
+    (hr1 : ∀ w, refT2W (refW2T w) = w) (s0 : Nat → ℝ)
+    (eps epsD : ℝ) (heps : 0 < eps) (g : FitGeom) (nclip : Option Int) (sigma : Option (ℝ × String))
+    (accum : Bool) (ms : List (GMember (GCorr ℝ) ℝ))
+    (hgood : ∀ (p : Nat) (gm : GMember (GCorr ℝ) ℝ), ms[p]? = some gm →
+      (env p).Bij ∧ gm.corr.WF ∧ s0 p ≠ 0 ∧
+        ∃ q : Aff ℝ, q.m.det ≠ 0 ∧ ∀ x, gm.corr.worldToTanp (env p) (refT2W x) = q.app x)
+    (w0 : Nat → ℝ × ℝ → ℝ × ℝ) (st0 : GState ℝ) (hc : createGroup w0 (ms.map (·.cat)) = .ok st0)
+    (hist : List (GC.GOp ℝ)) (hcur : Current (gwcsOps env refW2T refT2W s0) ms (run st0 hist))
+    (hne : (run st0 hist).catlen ≠ 0) (ref : RefCat ℝ)
+    (hl : (run st0 hist).catlen = ref.ids.length) (hl2 : ref.radec.length = ref.ids.length)
+    (minobj : Option Nat) (fitmin : Nat) (r : IterRes ℝ) (f : Aff ℝ)
+    (hfit : (groupAlignToRef (gwcsOps env refW2T refT2W s0) (FitCfg.ofGeom eps epsD g nclip sigma accum) ms
+      (run st0 hist) ref none minobj fitmin).fit = some (r, f))
+    (T : Lin ℝ) (hdetT : T.m00 * T.m11 - T.m01 * T.m10 ≠ 0)
+    (hT : ∀ (i : Nat) (row : GRow ℝ) (rd : ℝ × ℝ), (run st0 hist).rows[i]? = some row → ref.radec[i]? = some rd →
+      refW2T (toV rd) = C01.Lin.app T (refW2T (toV row.radec)))
+    (hfam : FamilyOK g T (∀ pa : PairArgs ℝ,
+      (groupAlignToRef (gwcsOps env refW2T refT2W s0) (FitCfg.ofGeom eps epsD g nclip sigma accum) ms
+        (run st0 hist) ref none minobj fitmin).res = .ok (true, some pa) →
+      ((List.zipWith mkObs pa.xy pa.uv).map fun o => (o.u, o.v)).Nodup)) :
+    MovedBy (gwcsOps env refW2T refT2W s0) ms (run st0 hist)
+      (groupAlignToRef (gwcsOps env refW2T refT2W s0) (FitCfg.ofGeom eps epsD g nclip sigma accum) ms
+        (run st0 hist) ref none minobj fitmin) ref (List.range (run st0 hist).catlen)
+      (List.range (run st0 hist).catlen) f T :=
+  group_exact_code_none w0 _ (gwcsGood env refT2W s0) (gwcs_applies env refW2T refT2W hr1 s0) eps epsD heps g nclip
+    sigma accum ms hgood st0 hc hist hcur hne ref hl hl2 minobj fitmin r f hfit T hdetT hT hfam
+
+/-- **exactness at group level, `general` fit over ANY ordered field** (exact rationals included), any metric,
+statistic, weight normalisation and `minobj` of the fitter: FITS members -/
+theorem group_align_exact_general (P : Aff K) (hP : P.m.det ≠ 0) (δ : Nat → V2 K → V2 K)
+    (eps epsD : K) (heps : 0 < eps) (nrm : Bool) (mt : Metric K) (fm : Nat) (nclip : Option Int)
+    (sigma : Option (K × String)) (accum : Bool) (ms : List (GMember (FState K) K))
+    (hgood : ∀ (p : Nat) (gm : GMember (FState K) K), ms[p]? = some gm →
+      gm.corr.f.WF ∧ gm.corr.hx ≠ 0 ∧ gm.corr.hy ≠ 0)
+    (w0 : Nat → K × K → K × K) (st0 : GState K) (hc : createGroup w0 (ms.map (·.cat)) = .ok st0)
+    (hist : List (GC.GOp K)) (hcur : Current (fitsOps P δ) ms (run st0 hist))
+    (hne : (run st0 hist).catlen ≠ 0) (ref : RefCat K) (mref minput : List Int)
+    (minobj : Option Nat) (fitmin : Nat) (r : IterRes K) (f : Aff K)
+    (hfit : (groupAlignToRef (fitsOps P δ) ⟨fitGeneral eps epsD, nrm, mt, fm, nclip, sigma, accum⟩ ms
+      (run st0 hist) ref (some (mref, minput)) minobj fitmin).fit = some (r, f))
+    (inp rf : List Nat) (hin : normAll (run st0 hist).catlen minput = some inp)
+    (hrf : normAll ref.radec.length mref = some rf)
+    (T : Lin K) (hdetT : T.m00 * T.m11 - T.m01 * T.m10 ≠ 0)
+    (hT : ∀ (k i j : Nat) (row : GRow K) (rd : K × K), inp[k]? = some i → rf[k]? = some j →
+      (run st0 hist).rows[i]? = some row → ref.radec[j]? = some rd →
+      P.app (toV rd) = C01.Lin.app T (P.app (toV row.radec))) :
+    MovedBy (fitsOps P δ) ms (run st0 hist)
+      (groupAlignToRef (fitsOps P δ) ⟨fitGeneral eps epsD, nrm, mt, fm, nclip, sigma, accum⟩ ms (run st0 hist)
+        ref (some (mref, minput)) minobj fitmin) ref inp rf f T :=
+  group_exact_general w0 _ fitsGood (fits_applies P hP δ) eps epsD heps nrm mt fm nclip sigma accum ms hgood st0 hc
+    hist hcur hne ref mref minput minobj fitmin r f hfit inp rf hin hrf T hdetT hT
+
+/-- … and gWCS members -/
+theorem group_align_exact_general_gwcs (env : Nat → GEnv K) (refW2T refT2W : V2 K → V2 K)
+    (hr1 : ∀ w, refT2W (refW2T w) = w) (s0 : Nat → K)
+    (eps epsD : K) (heps : 0 < eps) (nrm : Bool) (mt : Metric K) (fm : Nat) (nclip : Option Int)
+    (sigma : Option (K × String)) (accum : Bool) (ms : List (GMember (GCorr K) K))
+    (hgood : ∀ (p : Nat) (gm : GMember (GCorr K) K), ms[p]? = some gm →
+      (env p).Bij ∧ gm.corr.WF ∧ s0 p ≠ 0 ∧
+        ∃ q : Aff K, q.m.det ≠ 0 ∧ ∀ x, gm.corr.worldToTanp (env p) (refT2W x) = q.app x)
+    (w0 : Nat → K × K → K × K) (st0 : GState K) (hc : createGroup w0 (ms.map (·.cat)) = .ok st0)
+    (hist : List (GC.GOp K)) (hcur : Current (gwcsOps env refW2T refT2W s0) ms (run st0 hist))
+    (hne : (run st0 hist).catlen ≠ 0) (ref : RefCat K) (mref minput : List Int)
+    (minobj : Option Nat) (fitmin : Nat) (r : IterRes K) (f : Aff K)
+    (hfit : (groupAlignToRef (gwcsOps env refW2T refT2W s0) ⟨fitGeneral eps epsD, nrm, mt, fm, nclip, sigma, accum⟩
+      ms (run st0 hist) ref (some (mref, minput)) minobj fitmin).fit = some (r, f))
+    (inp rf : List Nat) (hin : normAll (run st0 hist).catlen minput = some inp)
+    (hrf : normAll ref.radec.length mref = some rf)
+    (T : Lin K) (hdetT : T.m00 * T.m11 - T.m01 * T.m10 ≠ 0)
+    (hT : ∀ (k i j : Nat) (row : GRow K) (rd : K × K), inp[k]? = some i → rf[k]? = some j →
+      (run st0 hist).rows[i]? = some row → ref.radec[j]? = some rd →
+      refW2T (toV rd) = C01.Lin.app T (refW2T (toV row.radec))) :
+    MovedBy (gwcsOps env refW2T refT2W s0) ms (run st0 hist)
+      (groupAlignToRef (gwcsOps env refW2T refT2W s0) ⟨fitGeneral eps epsD, nrm, mt, fm, nclip, sigma, accum⟩ ms
+        (run st0 hist) ref (some (mref, minput)) minobj fitmin) ref inp rf f T :=
+  group_exact_general w0 _ (gwcsGood env refT2W s0) (gwcs_applies env refW2T refT2W hr1 s0) eps epsD heps nrm mt fm
+    nclip sigma accum ms hgood st0 hc hist hcur hne ref mref minput minobj fitmin r f hfit inp rf hin hrf T hdetT hT
+
+/-- **the weights of the group fit.**  If pair `k` of the matcher's answer names the `j`-th source of the `i`-th
+non-empty member `gm` (group row `groupOffset i + j`) and that member's catalog has the weight column `wi`, the
+weight `wuv[k]` handed to `iter_linear_fit` is `wi[j]`.  Hence a source of ANY member whose weight is not positive
+does not influence the group fit: replacing the coordinates of pair `k` by anything gives the same answer of
+`iter_linear_fit` (the same exception or the same matrix, shift, centre, statistics, `fitmask`), and `fitmask[k]` is
+`False`.  Any corrector class, any fit geometry, any history. -/
+theorem group_align_weights {C : Type} (ops : CorrOps C K) (cfg : FitCfg K) (ms : List (GMember C K))
+    (hwf : ∀ gm ∈ ms, ∀ w, gm.cat.weight = some w → w.length = gm.cat.rows.length)
+    (w0 : Nat → K × K → K × K) (st0 : GState K) (hc : createGroup w0 (ms.map (·.cat)) = .ok st0)
+    (hist : List (GC.GOp K)) (hne : (run st0 hist).catlen ≠ 0) (ref : RefCat K) (mref minput : List Int)
+    (minobj : Option Nat) (fitmin : Nat) (pa : PairArgs K)
+    (hR : (groupAlignToRef ops cfg ms (run st0 hist) ref (some (mref, minput)) minobj fitmin).res
+      = .ok (true, some pa))
+    (inp : List Nat) (hin : normAll (run st0 hist).catlen minput = some inp)
+    (k i j : Nat) (gm : GMember C K) (wi : List K)
+    (him : (nonEmptyCats (ms.map (·.cat)))[i]? = some gm.cat) (hj : j < gm.cat.rows.length)
+    (hw : gm.cat.weight = some wi)
+    (hk : inp[k]? = some (groupOffset (nonEmptyCats (ms.map (·.cat))) i + j)) :
+    (∃ wu, pa.wuv = some wu ∧ wu[k]? = wi[j]?) ∧
+    (∀ x, wi[j]? = some x → ¬ 0 < x →
+      (∀ obs2 : List (Obs K), obs2.length = (List.zipWith mkObs pa.xy pa.uv).length →
+        (∀ k', k' ≠ k → obs2[k']? = (List.zipWith mkObs pa.xy pa.uv)[k']?) →
+        iterLinearFitWith cfg.single cfg.normalised cfg.metric cfg.fitMinobj obs2 pa.wxy pa.wuv none cfg.nclip
+            cfg.sigma cfg.accum
+          = iterLinearFitWith cfg.single cfg.normalised cfg.metric cfg.fitMinobj (List.zipWith mkObs pa.xy pa.uv)
+            pa.wxy pa.wuv none cfg.nclip cfg.sigma cfg.accum) ∧
+      (∀ r f, (groupAlignToRef ops cfg ms (run st0 hist) ref (some (mref, minput)) minobj fitmin).fit = some (r, f) →
+        ¬ Clip.On r.fitmask k)) := by
+  obtain ⟨wu, hwu, hwk⟩ := weight_of_member w0 ops cfg ms hwf st0 hc hist hne ref mref minput minobj fitmin pa hR
+    inp hin k i j gm wi him hj hw hk
+  refine ⟨⟨wu, hwu, hwk⟩, fun x hx hnp => ?_⟩
+  have hoff : ∀ n, ¬ Clip.On (wmaskOf n pa.wxy pa.wuv) k := by
+    intro n hon
+    obtain ⟨_, _, h3⟩ := (C09.wmask_spec n pa.wxy pa.wuv k).mp hon
+    obtain ⟨y, hy, hpos⟩ := h3 wu hwu
+    rw [hwk, hx] at hy
+    injection hy with hy
+    subst hy
+    exact hnp (by simpa [zeroK_eq] using hpos)
+  constructor
+  · intro obs2 hlen hag
+    have := (C09.zero_weight_irrelevant cfg.single cfg.normalised cfg.metric cfg.fitMinobj
+      (List.zipWith mkObs pa.xy pa.uv) obs2 pa.wxy pa.wuv none cfg.nclip cfg.sigma cfg.accum hlen.symm
+      (fun i hi => by
+        by_cases hik : i = k
+        · subst hik; exact absurd hi (hoff _)
+        · exact (hag i hik).symm)).1
+    exact this.symm
+  · intro r f hfit hon
+    obtain ⟨_, _, _, pa', _, _, _, hfp, _, _, hR', _⟩ :=
+      fit_inv ops cfg ms (run st0 hist) ref _ minobj fitmin r f hfit
+    rw [hR] at hR'
+    simp only [Except.ok.injEq, Prod.mk.injEq, Option.some.injEq, true_and] at hR'
+    subst hR'
+    have hiter := (fitPairs_ok cfg pa r _ hfp).1
+    exact (C09.zero_weight_irrelevant cfg.single cfg.normalised cfg.metric cfg.fitMinobj
+      (List.zipWith mkObs pa.xy pa.uv) (List.zipWith mkObs pa.xy pa.uv) pa.wxy pa.wuv none cfg.nclip cfg.sigma
+      cfg.accum rfl (fun _ _ => rfl)).2 r hiter k (hoff _) hon
+
+/-- **the group-level model is `GC.alignToRef`** with its external parameters made concrete (the fitter is
+`iter_linear_fit` on the selected pairs; the WCS after the correction are `det_to_world` of the corrected
+members): state and return value agree, so every bookkeeping theorem of C11 about `alignToRef` (`matched_ref_id`,
+`get_unmatched_cat`, what `expand_catalog` appends, …) holds for the composition. -/
+theorem group_align_is_alignToRef {C : Type} (ops : CorrOps C K) (cfg : FitCfg K) (ms : List (GMember C K))
+    (st : GState K) (ref : RefCat K) (m : Option (List Int × List Int)) (minobj : Option Nat) (fitmin : Nat) :
+    alignToRef st (alignArgsOf ops cfg (groupAlignToRef ops cfg ms st ref m minobj fitmin).members ref m minobj fitmin)
+      = ⟨(groupAlignToRef ops cfg ms st ref m minobj fitmin).st,
+         (groupAlignToRef ops cfg ms st ref m minobj fitmin).res⟩ :=
+  groupAlignToRef_eq_alignToRef ops cfg ms st ref m minobj fitmin
+
+/-- **the reference plane does not matter at group level (FITS, flat sky).**  The same group aligned once in the
+plane `P` and once in the plane `Q ∘ P` (any invertible `Q`: another tangent point, orientation, scale), when the
+two fits are conjugate — `f₂ = Q f₁ Q⁻¹`, which is the equivariance of the fit (C08) — : every member, at every
+position, ends with the same WCS as a map pixel → sky, and the two recomputed group catalogs carry the same
+`RA`, `DEC` row by row. -/
+theorem group_align_plane_independent (P Q : Aff K) (hP : P.m.det ≠ 0) (hQ : Q.m.det ≠ 0)
+    (δ : Nat → V2 K → V2 K) (cfg1 cfg2 : FitCfg K) (ms : List (GMember (FState K) K))
+    (hgood : ∀ (p : Nat) (gm : GMember (FState K) K), ms[p]? = some gm →
+      gm.corr.f.WF ∧ gm.corr.hx ≠ 0 ∧ gm.corr.hy ≠ 0)
+    (w0 : Nat → K × K → K × K) (st0 : GState K) (hc : createGroup w0 (ms.map (·.cat)) = .ok st0)
+    (hist : List (GC.GOp K)) (hcur : Current (fitsOps P δ) ms (run st0 hist))
+    (ref : RefCat K) (m : Option (List Int × List Int)) (minobj : Option Nat) (fitmin : Nat)
+    (r1 r2 : IterRes K) (f1 f2 : Aff K)
+    (hfit1 : (groupAlignToRef (fitsOps P δ) cfg1 ms (run st0 hist) ref m minobj fitmin).fit = some (r1, f1))
+    (hfit2 : (groupAlignToRef (fitsOps (Q.comp P) δ) cfg2 ms (run st0 hist) ref m minobj fitmin).fit
+      = some (r2, f2))
+    (hdet : f1.m.det ≠ 0) (hconj : f2 = Q.comp (f1.comp Q.inv)) :
+    (∀ (p : Nat) (gm : GMember (FState K) K), ms[p]? = some gm →
+      ∃ g1 g2, (groupAlignToRef (fitsOps P δ) cfg1 ms (run st0 hist) ref m minobj fitmin).members[p]? = some g1 ∧
+        (groupAlignToRef (fitsOps (Q.comp P) δ) cfg2 ms (run st0 hist) ref m minobj fitmin).members[p]? = some g2 ∧
+        g1.cat = gm.cat ∧ g2.cat = gm.cat ∧
+        ∀ x, g2.corr.f.detToWorld (δ p) x = g1.corr.f.detToWorld (δ p) x) ∧
+    (∀ (i : Nat) (row1 row2 : GRow K),
+      (groupAlignToRef (fitsOps P δ) cfg1 ms (run st0 hist) ref m minobj fitmin).st.rows[i]? = some row1 →
+      (groupAlignToRef (fitsOps (Q.comp P) δ) cfg2 ms (run st0 hist) ref m minobj fitmin).st.rows[i]? = some row2 →
+      row2.radec = row1.radec ∧ row2.core = row1.core) := by
+  have hQP : (Q.comp P).m.det ≠ 0 := by rw [Aff.det_comp]; exact mul_ne_zero hQ hP
+  have hdet2 : f2.m.det ≠ 0 := by
+    rw [hconj]
+    simp only [Aff.det_comp, Aff.inv]
+    rw [M2.det_inv _ hQ]
+    have : Q.m.det * (f1.m.det * (1 / Q.m.det)) = f1.m.det := by field_simp
+    rw [this]; exact hdet
+  have hcur2 : Current (fitsOps (Q.comp P) δ) ms (run st0 hist) := hcur
+  have c1 := group_core w0 _ fitsGood (fits_applies P hP δ) cfg1 ms hgood st0 hc hist hcur ref m minobj fitmin
+    r1 f1 hfit1 hdet
+  have c2 := group_core w0 _ fitsGood (fits_applies (Q.comp P) hQP δ) cfg2 ms hgood st0 hc hist hcur2 ref m minobj
+    fitmin r2 f2 hfit2 hdet2
+  unfold Applied at c1 c2
+  obtain ⟨⟨_, hm1⟩, _, hrows1, _⟩ := c1
+  obtain ⟨⟨_, hm2⟩, _, hrows2, _⟩ := c2
+  have hsame : ∀ (p : Nat) (gm : GMember (FState K) K), ms[p]? = some gm → ∀ x,
+      ((fitsOps (Q.comp P) δ).setCorr p gm.corr f2.m f2.t).f.detToWorld (δ p) x
+        = ((fitsOps P δ).setCorr p gm.corr f1.m f1.t).f.detToWorld (δ p) x := by
+    intro p gm hp x
+    obtain ⟨hf, hx, hy⟩ := hgood p gm hp
+    subst hconj
+    exact fits_same_result_in_any_plane P Q hP hQ f1 hdet gm.corr.f hf gm.corr.hx gm.corr.hy hx hy (δ p) x
+  refine ⟨fun p gm hp => ⟨_, _, hm1 p gm hp, hm2 p gm hp, rfl, rfl, hsame p gm hp⟩, ?_⟩
+  intro i row1 row2 h1 h2
+  obtain ⟨old1, p1, gm1, j1, ho1, hc1, hp1, hg1, _, _, _, hn1, _⟩ := hrows1 i row1 h1
+  obtain ⟨old2, p2, gm2, j2, ho2, hc2, hp2, hg2, _, _, _, hn2, _⟩ := hrows2 i row2 h2
+  rw [ho1] at ho2
+  injection ho2 with ho2
+  subst ho2
+  have hcore : row2.core = row1.core := by rw [← hc1, ← hc2]
+  have hidx : row2.imcatIdx = row1.imcatIdx := by
+    have := congrArg (fun c => c.1) hcore
+    simpa [GRow.core] using this
+  have hxy : row2.xy = row1.xy := by
+    have := congrArg (fun c => c.2.2) hcore
+    simpa [GRow.core] using this
+  rw [hidx, hp1] at hp2
+  injection hp2 with hp2
+  subst hp2
+  rw [hg1] at hg2
+  injection hg2 with hg2
+  subst hg2
+  refine ⟨?_, hcore⟩
+  rw [hn1, hn2, hxy]
+  exact congrArg ofV (hsame p1 gm1 hg1 (toV row1.xy))
+
+/-- **… carried out in both planes with exact data (FITS, `general` fit, any ordered field).**  Here the conjugacy
+of the two fits is not a hypothesis: if the pairs are noise-free for `T` in the plane `P` they are noise-free for
+`Q T Q⁻¹` in the plane `Q ∘ P`, both alignments recover their map, and every member ends with the same WCS, every
+catalog row with the same `RA`, `DEC`. -/
+theorem group_align_plane_independent_exact (P Q : Aff K) (hP : P.m.det ≠ 0) (hQ : Q.m.det ≠ 0)
+    (δ : Nat → V2 K → V2 K) (eps epsD : K) (heps : 0 < eps) (nrm : Bool) (mt : Metric K) (fm : Nat)
+    (nclip : Option Int) (sigma : Option (K × String)) (accum : Bool) (ms : List (GMember (FState K) K))
+    (hgood : ∀ (p : Nat) (gm : GMember (FState K) K), ms[p]? = some gm →
+      gm.corr.f.WF ∧ gm.corr.hx ≠ 0 ∧ gm.corr.hy ≠ 0)
+    (w0 : Nat → K × K → K × K) (st0 : GState K) (hc : createGroup w0 (ms.map (·.cat)) = .ok st0)
+    (hist : List (GC.GOp K)) (hcur : Current (fitsOps P δ) ms (run st0 hist))
+    (hne : (run st0 hist).catlen ≠ 0) (ref : RefCat K) (mref minput : List Int)
+    (minobj : Option Nat) (fitmin : Nat) (r1 r2 : IterRes K) (f1 f2 : Aff K)
+    (hfit1 : (groupAlignToRef (fitsOps P δ) ⟨fitGeneral eps epsD, nrm, mt, fm, nclip, sigma, accum⟩ ms
+      (run st0 hist) ref (some (mref, minput)) minobj fitmin).fit = some (r1, f1))
+    (hfit2 : (groupAlignToRef (fitsOps (Q.comp P) δ) ⟨fitGeneral eps epsD, nrm, mt, fm, nclip, sigma, accum⟩ ms
+      (run st0 hist) ref (some (mref, minput)) minobj fitmin).fit = some (r2, f2))
+    (inp rf : List Nat) (hin : normAll (run st0 hist).catlen minput = some inp)
+    (hrf : normAll ref.radec.length mref = some rf)
+    (T : Lin K) (hdetT : T.m00 * T.m11 - T.m01 * T.m10 ≠ 0)
+    (hT : ∀ (k i j : Nat) (row : GRow K) (rd : K × K), inp[k]? = some i → rf[k]? = some j →
+      (run st0 hist).rows[i]? = some row → ref.radec[j]? = some rd →
+      P.app (toV rd) = C01.Lin.app T (P.app (toV row.radec))) :
+    (∀ (p : Nat) (gm : GMember (FState K) K), ms[p]? = some gm →
+      ∃ g1 g2, (groupAlignToRef (fitsOps P δ) ⟨fitGeneral eps epsD, nrm, mt, fm, nclip, sigma, accum⟩ ms
+          (run st0 hist) ref (some (mref, minput)) minobj fitmin).members[p]? = some g1 ∧
+        (groupAlignToRef (fitsOps (Q.comp P) δ) ⟨fitGeneral eps epsD, nrm, mt, fm, nclip, sigma, accum⟩ ms
+          (run st0 hist) ref (some (mref, minput)) minobj fitmin).members[p]? = some g2 ∧
+        g1.cat = gm.cat ∧ g2.cat = gm.cat ∧
+        ∀ x, g2.corr.f.detToWorld (δ p) x = g1.corr.f.detToWorld (δ p) x) ∧
+    (∀ (i : Nat) (row1 row2 : GRow K),
+      (groupAlignToRef (fitsOps P δ) ⟨fitGeneral eps epsD, nrm, mt, fm, nclip, sigma, accum⟩ ms
+        (run st0 hist) ref (some (mref, minput)) minobj fitmin).st.rows[i]? = some row1 →
+      (groupAlignToRef (fitsOps (Q.comp P) δ) ⟨fitGeneral eps epsD, nrm, mt, fm, nclip, sigma, accum⟩ ms
+        (run st0 hist) ref (some (mref, minput)) minobj fitmin).st.rows[i]? = some row2 →
+      row2.radec = row1.radec ∧ row2.core = row1.core) := by
+  have hQP : (Q.comp P).m.det ≠ 0 := by rw [Aff.det_comp]; exact mul_ne_zero hQ hP
+  -- the conjugated map
+  let F : Aff K := ⟨⟨T.m00, T.m01, T.m10, T.m11⟩, ⟨T.sx, T.sy⟩⟩
+  let A : Aff K := Q.comp (F.comp Q.inv)
+  let T' : Lin K := ⟨A.m.a, A.m.b, A.m.c, A.m.d, A.t.x, A.t.y⟩
+  have hA : ∀ v, C01.Lin.app T' v = A.app v := fun v => rfl
+  have hFdet : F.m.det ≠ 0 := hdetT
+  have hdetT' : T'.m00 * T'.m11 - T'.m01 * T'.m10 ≠ 0 := by
+    show A.m.det ≠ 0
+    simp only [A, Aff.det_comp, Aff.inv]
+    rw [M2.det_inv _ hQ]
+    have : Q.m.det * (F.m.det * (1 / Q.m.det)) = F.m.det := by field_simp
+    rw [this]; exact hFdet
+  have hT' : ∀ (k i j : Nat) (row : GRow K) (rd : K × K), inp[k]? = some i → rf[k]? = some j →
+      (run st0 hist).rows[i]? = some row → ref.radec[j]? = some rd →
+      (Q.comp P).app (toV rd) = C01.Lin.app T' ((Q.comp P).app (toV row.radec)) := by
+    intro k i j row rd hi hj hrow hrd
+    rw [hA]
+    simp only [A, Aff.app_comp, Aff.inv_app Q hQ]
+    rw [hT k i j row rd hi hj hrow hrd]
+    rfl
+  have hcur2 : Current (fitsOps (Q.comp P) δ) ms (run st0 hist) := hcur
+  have m1 := group_align_exact_general P hP δ eps epsD heps nrm mt fm nclip sigma accum ms hgood w0 st0 hc hist hcur
+    hne ref mref minput minobj fitmin r1 f1 hfit1 inp rf hin hrf T hdetT hT
+  have m2 := group_align_exact_general (Q.comp P) hQP δ eps epsD heps nrm mt fm nclip sigma accum ms hgood w0 st0 hc
+    hist hcur2 hne ref mref minput minobj fitmin r2 f2 hfit2 inp rf hin hrf T' hdetT' hT'
+  have e1 : f1 = F := m1.1
+  have e2 : f2 = A := m2.1
+  exact group_align_plane_independent P Q hP hQ δ _ _ ms hgood w0 st0 hc hist hcur ref _ minobj fitmin r1 r2 f1 f2
+    hfit1 hfit2 (by rw [e1]; exact hFdet) (by rw [e1, e2])
+
+/-- **on the sky** (FITS, flat sky): under the conclusion of the exactness theorems the recomputed `RA`, `DEC` of
+every matched row IS the reference position of its pair (not only its image in the plane), and the new sky
+position of every row is `P⁻¹ ∘ T ∘ P` of its old one — one sky-level map for all members -/
+theorem group_align_lands_on_reference (P : Aff K) (hP : P.m.det ≠ 0) (δ : Nat → V2 K → V2 K)
+    (ms : List (GMember (FState K) K)) (st : GState K) (R : GAResult (FState K) K) (ref : RefCat K)
+    (inp rf : List Nat) (f : Aff K) (T : Lin K)
+    (h : MovedBy (fitsOps P δ) ms st R ref inp rf f T) :
+    (∀ (k i j : Nat) (rd : K × K), inp[k]? = some i → rf[k]? = some j → ref.radec[j]? = some rd →
+      ∃ row', R.st.rows[i]? = some row' ∧ row'.radec = rd) ∧
+    (∀ (i : Nat) (row' : GRow K), R.st.rows[i]? = some row' →
+      ∃ old, st.rows[i]? = some old ∧
+        toV row'.radec = P.inv.app (C01.Lin.app T (P.app (toV old.radec)))) := by
+  unfold MovedBy at h
+  obtain ⟨_, _, hrows, hland⟩ := h
+  have inj : ∀ a b : V2 K, P.app a = P.app b → a = b := by
+    intro a b hab
+    have := congrArg P.inv.app hab
+    rwa [Aff.inv_app _ hP, Aff.inv_app _ hP] at this
+  constructor
+  · intro k i j rd hi hj hrd
+    obtain ⟨row', hrow', hw⟩ := hland k i j rd hi hj hrd
+    exact ⟨row', hrow', congrArg ofV (inj _ _ hw)⟩
+  · intro i row' hrow'
+    obtain ⟨old, _, _, _, hold, _, _, _, _, _, _, hw⟩ := hrows i row' hrow'
+    refine ⟨old, hold, ?_⟩
+    have hw' : P.app (toV row'.radec) = C01.Lin.app T (P.app (toV old.radec)) := hw
+    rw [← hw', Aff.inv_app _ hP]
+
+/-- **on the sky** (gWCS): the same with the reference corrector's `tanp_to_world ∘ T ∘ world_to_tanp` -/
+theorem group_align_lands_on_reference_gwcs (env : Nat → GEnv K) (refW2T refT2W : V2 K → V2 K)
+    (hr1 : ∀ w, refT2W (refW2T w) = w) (s0 : Nat → K)
+    (ms : List (GMember (GCorr K) K)) (st : GState K) (R : GAResult (GCorr K) K) (ref : RefCat K)
+    (inp rf : List Nat) (f : Aff K) (T : Lin K)
+    (h : MovedBy (gwcsOps env refW2T refT2W s0) ms st R ref inp rf f T) :
+    (∀ (k i j : Nat) (rd : K × K), inp[k]? = some i → rf[k]? = some j → ref.radec[j]? = some rd →
+      ∃ row', R.st.rows[i]? = some row' ∧ row'.radec = rd) ∧
+    (∀ (i : Nat) (row' : GRow K), R.st.rows[i]? = some row' →
+      ∃ old, st.rows[i]? = some old ∧
+        toV row'.radec = refT2W (C01.Lin.app T (refW2T (toV old.radec)))) := by
+  unfold MovedBy at h
+  obtain ⟨_, _, hrows, hland⟩ := h
+  have inj : ∀ a b : V2 K, refW2T a = refW2T b → a = b := by
+    intro a b hab
+    have := congrArg refT2W hab
+    rwa [hr1, hr1] at this
+  constructor
+  · intro k i j rd hi hj hrd
+    obtain ⟨row', hrow', hw⟩ := hland k i j rd hi hj hrd
+    exact ⟨row', hrow', congrArg ofV (inj _ _ hw)⟩
+  · intro i row' hrow'
+    obtain ⟨old, _, _, _, hold, _, _, _, _, _, _, hw⟩ := hrows i row' hrow'
+    refine ⟨old, hold, ?_⟩
+    have hw' : refW2T (toV row'.radec) = C01.Lin.app T (refW2T (toV old.radec)) := hw
+    rw [← hw', hr1]
+
+/-- **the procedure can be iterated** (FITS; prior histories 0, 1, 2, … alignments): after a successful alignment the
+corrected members and the recomputed catalog satisfy again the hypotheses of all the theorems above — well-formed
+WCS with the same differentiation steps, the same catalogs (so `hc` holds verbatim), a current catalog reached by
+a history of bookkeeping operations. -/
+theorem group_align_can_be_iterated (P : Aff K) (hP : P.m.det ≠ 0) (δ : Nat → V2 K → V2 K) (cfg : FitCfg K)
+    (ms : List (GMember (FState K) K))
+    (hgood : ∀ (p : Nat) (gm : GMember (FState K) K), ms[p]? = some gm →
+      gm.corr.f.WF ∧ gm.corr.hx ≠ 0 ∧ gm.corr.hy ≠ 0)
+    (w0 : Nat → K × K → K × K) (st0 : GState K) (hc : createGroup w0 (ms.map (·.cat)) = .ok st0)
+    (hist : List (GC.GOp K)) (hcur : Current (fitsOps P δ) ms (run st0 hist))
+    (ref : RefCat K) (m : Option (List Int × List Int)) (minobj : Option Nat) (fitmin : Nat)
+    (r : IterRes K) (f : Aff K)
+    (hfit : (groupAlignToRef (fitsOps P δ) cfg ms (run st0 hist) ref m minobj fitmin).fit = some (r, f))
+    (hdet : f.m.det ≠ 0) :
+    (∀ (p : Nat) (gm : GMember (FState K) K),
+      (groupAlignToRef (fitsOps P δ) cfg ms (run st0 hist) ref m minobj fitmin).members[p]? = some gm →
+      gm.corr.f.WF ∧ gm.corr.hx ≠ 0 ∧ gm.corr.hy ≠ 0) ∧
+    createGroup w0 ((groupAlignToRef (fitsOps P δ) cfg ms (run st0 hist) ref m minobj fitmin).members.map (·.cat))
+      = .ok st0 ∧
+    (∃ hist', (groupAlignToRef (fitsOps P δ) cfg ms (run st0 hist) ref m minobj fitmin).st = run st0 hist') ∧
+    Current (fitsOps P δ) (groupAlignToRef (fitsOps P δ) cfg ms (run st0 hist) ref m minobj fitmin).members
+      (groupAlignToRef (fitsOps P δ) cfg ms (run st0 hist) ref m minobj fitmin).st := by
+  obtain ⟨_, _, _, _, _, _, _, _, _, hmem, _, hst⟩ := fit_inv _ cfg ms (run st0 hist) ref m minobj fitmin r f hfit
+  have hcore := group_core w0 _ fitsGood (fits_applies P hP δ) cfg ms hgood st0 hc hist hcur ref m minobj fitmin
+    r f hfit hdet
+  unfold Applied at hcore
+  obtain ⟨⟨hlen, hm⟩, _, _, hcur'⟩ := hcore
+  refine ⟨?_, ?_, ?_, hcur'⟩
+  · intro p gm' hp
+    have hpl : p < ms.length := by
+      rw [← hlen]
+      by_contra hcon
+      rw [List.getElem?_eq_none_iff.mpr (by omega)] at hp; cases hp
+    have hold : ms[p]? = some ms[p] := List.getElem?_eq_getElem hpl
+    have := hm p _ hold
+    rw [hp] at this
+    injection this with this
+    subst this
+    obtain ⟨hf, hx, hy⟩ := hgood p _ hold
+    exact ⟨FCorr.setCorrectionRef_WF _ hf P hP f.m f.t hdet _ _ hx hy, hx, hy⟩
+  · rw [hmem, apply_cats]; exact hc
+  · refine ⟨hist ++ [GC.GOp.calcTp (tOf (fitsOps P δ)), GC.GOp.match2ref ref.ids m,
+      GC.GOp.recalc (wOf (fitsOps P δ) (applyAffineToWcs (fitsOps P δ) ms f.m f.t))], ?_⟩
+    rw [hst]
+    simp [run, List.foldl_append, applyOp]
+
+/-! ### non-vacuity: a concrete rational group (`GAL.gaMs`: three FITS members, the middle one WITHOUT sources and
+already corrected once, the last one in PC/CDELT form with a non-linear distortion; chart `GAL.gaP`, true map
+`GAL.gaT`; `general` fit with `nclip = 3`, `nsigma = 3`) -/
+
+-- the hypotheses on members, chart and map hold
+example : ∀ gm ∈ gaMs, gm.corr.f.L.det ≠ 0 ∧ gm.corr.hx ≠ 0 ∧ gm.corr.hy ≠ 0 := by decide +kernel
+example : gaP.m.det ≠ 0 ∧ gaT.m00 * gaT.m11 - gaT.m01 * gaT.m10 ≠ 0 := by decide +kernel
+
+-- the hypothesis `hT` holds: the matcher's arrays normalise to rows `[4, 0, 5, 2]` / reference rows
+-- `[2, 0, 3, 1]`, and every pair is (`gaT` of the row's plane position, the row's plane position)
+example :
+    (match createGroupOf gaOps gaMs with
+     | .ok st0 =>
+       normAll st0.catlen [4, 0, -1, 2] == some [4, 0, 5, 2] &&
+       normAll gaRef.radec.length [2, 0, 3, 1] == some [2, 0, 3, 1] &&
+       (List.zip [4, 0, 5, 2] [2, 0, 3, 1]).all (fun ij =>
+         match st0.rows[ij.1]?, gaRef.radec[ij.2]? with
+         | some row, some rd => gaP.app (toV rd) == C01.Lin.app gaT (gaP.app (toV row.radec))
+         | _, _ => false)
+     | .error _ => false) = true := by decide +kernel
+
+-- … the alignment succeeds and the conclusions can be read off: the reported fit is `gaT` (the centre of the fit
+-- is not the origin: the re-centring matters); all three members — the empty one at position 1 too — are moved by
+-- `gaT` in the plane, at catalog pixels and elsewhere; the matched rows 0, 2, 4, 5 carry the reference positions
+-- 0, 1, 2, 3; `matched_ref_id` names the reference ids
+example :
+    (match groupAlign gaOps gaCfg gaMs gaRef gaMatch none 3 with
+     | .ok R =>
+       (R.res.toOption.map (·.1) == some true) &&
+       (R.fit.map (·.2) == some ⟨⟨2, -1, -1, 3⟩, ⟨1, 1⟩⟩) &&
+       (R.fit.map (·.1.center) == some (175/32, -45/32)) &&
+       (List.range 3).all (fun p => gaPix.all fun x =>
+          match gaMs[p]?, R.members[p]? with
+          | some gm, some gm' =>
+            gaP.app (gm'.corr.f.detToWorld (gaDelta p) x)
+              == C01.Lin.app gaT (gaP.app (gm.corr.f.detToWorld (gaDelta p) x))
+          | _, _ => false) &&
+       (R.st.rows.map (·.radec)
+          == [(9/2, -4), (15/2, -6), (4, -2), (43/4, -9), (261/16, -55/4), (45/4, -11)]) &&
+       ([0, 2, 4, 5].map (fun i => (R.st.rows[i]?).map (·.radec)) == [0, 1, 2, 3].map (fun j => gaRef.radec[j]?)) &&
+       (R.st.matchedRefId.map MCol.view == some [some 11, none, some 12, none, some 13, some 14])
+     | .error _ => false) = true := by decide +kernel
+
+-- `group_align_weights`: the second source of member 2 (pair 0) has weight 0; wherever it sits — on its true
+-- pixel or far away — the fit is `gaT`, the pair carries weight 0 into the fit and is not in `fitmask`
+example :
+    ([((1 : ℚ), (1 : ℚ)), (50, -7)].all fun x =>
+      match groupAlign gaOps gaCfg (gaMsZ x) gaRef gaMatch none 3 with
+      | .ok R =>
+        (R.fit.map (·.2) == some ⟨⟨2, -1, -1, 3⟩, ⟨1, 1⟩⟩) &&
+        (R.fit.map (·.1.fitmask) == some [false, true, true, true]) &&
+        (match R.res with
+         | .ok (true, some pa) => pa.wuv == some [0, 1, 2, 1]
+         | _ => false)
+      | .error _ => false) = true := by decide +kernel
+
+/-! ### non-vacuity, gWCS (`GAL.gaGMs`: affine pipelines, a different detector transform per member; member 0 never
+corrected, member 1 without sources, member 2 corrected once before; reference plane `GAL.gaPr`) -/
+
+-- the hypotheses of the gWCS theorems hold for every member: bijective pipeline pieces, well-formed state,
+-- non-zero sampling scale, affine invertible plane-to-plane map
+example : ∀ (p : Nat) (gm : GMember (GCorr ℚ) ℚ), gaGMs[p]? = some gm →
+    (gaEnv p).Bij ∧ gm.corr.WF ∧ (fun _ : Nat => (1 : ℚ)) p ≠ 0 ∧
+      ∃ q : Aff ℚ, q.m.det ≠ 0 ∧ ∀ x, gm.corr.worldToTanp (gaEnv p) (gaPr.inv.app x) = q.app x := by
+  intro p gm hp
+  have hdet : (gaA p).m.det ≠ 0 := by
+    unfold gaA
+    split
+    · decide +kernel
+    · split <;> decide +kernel
+  have hb : (gaEnv p).Bij :=
+    ⟨fun x => Aff.inv_app _ hdet x, fun x => Aff.app_inv _ hdet x, fun _ => rfl, fun _ => rfl, fun _ => rfl,
+      fun _ => rfl, one_ne_zero⟩
+  have hwf : gm.corr.WF := by
+    match p, hp with
+    | 0, hp =>
+      simp only [gaGMs, List.getElem?_cons_zero, Option.some.injEq] at hp
+      subst hp; exact GCorr.fresh_WF _
+    | 1, hp =>
+      simp only [gaGMs, List.getElem?_cons_succ, List.getElem?_cons_zero, Option.some.injEq] at hp
+      subst hp; exact GCorr.fresh_WF _
+    | 2, hp =>
+      simp only [gaGMs, List.getElem?_cons_succ, List.getElem?_cons_zero, Option.some.injEq] at hp
+      subst hp
+      unfold GCorr.WF
+      decide +kernel
+    | n + 3, hp => simp [gaGMs] at hp
+  refine ⟨hb, hwf, one_ne_zero, gaPr.inv, ?_, fun x => ?_⟩
+  · decide +kernel
+  · exact worldToTanp_trivial (gaEnv p) rfl rfl rfl rfl gm.corr hwf _
+
+example : ∀ w, gaPr.inv.app (gaPr.app w) = w := fun w => Aff.inv_app gaPr (by decide +kernel) w
+
+-- the alignment succeeds, the reported fit is `gaT`, all three members (the empty one too) are moved by `gaT`
+-- in the reference plane, the matched rows 0, 2, 3, 4 carry the reference positions 1, 2, 3, 0
+example :
+    (match groupAlign gaGOps gaCfg gaGMs gaGRef gaGMatch none 3 with
+     | .ok R =>
+       (R.res.toOption.map (·.1) == some true) &&
+       (R.fit.map (·.2) == some ⟨⟨2, -1, -1, 3⟩, ⟨1, 1⟩⟩) &&
+       (List.range 3).all (fun p => gaPix.all fun x =>
+          match gaGMs[p]?, R.members[p]? with
+          | some gm, some gm' =>
+            gaPr.app (gm'.corr.detToWorld (gaEnv p) x)
+              == C01.Lin.app gaT (gaPr.app (gm.corr.detToWorld (gaEnv p) x))
+          | _, _ => false) &&
+       (R.st.rows.map (·.radec) == [(-7, 4), (-9/2, 7/2), (-19/2, 13/2), (8, 9), (3, 14)]) &&
+       ([0, 2, 3, 4].map (fun i => (R.st.rows[i]?).map (·.radec)) == [1, 2, 3, 0].map (fun j => gaGRef.radec[j]?)) &&
+       (R.members.map (·.corr.frames) == List.replicate 3 ["detector", "v2v3", "v2v3corr", "world"])
+     | .error _ => false) = true := by decide +kernel
+
+end groupAlign
 
 end TW.C05
